@@ -104,7 +104,7 @@ def targets_p_vc(batch_first):
         the_mask = stn.ST((H, R, N), lambda h, r, n: MASK(z(h), z(r), z(n)), "bool")
 
         def sm_contract(I2, a, kw):
-            I2.ex.oblige("string_matching.called_for_the_mask_of_these_sequences", z3.BoolVal(a[0] is ref and a[1] is hyp and kw.get("return_mask") is True and a[4] == batch_first))
+            I2.ex.oblige("structure.string_matching.called_for_the_mask_of_these_sequences", z3.BoolVal(a[0] is ref and a[1] is hyp and kw.get("return_mask") is True and a[4] == batch_first))
             return the_mask
 
         I.contracts["pydrobert.torch._string._string_matching"] = sm_contract
